@@ -172,7 +172,7 @@ func init() {
 		MaxWorkers:  8,
 		Plan: func(tier core.Tier, seed int64) int {
 			if tier == core.Thorough {
-				return 1600
+				return 10000
 			}
 			return 96
 		},
